@@ -167,13 +167,20 @@ func (w *c10World) build(r *core.Rng, fault, policy string, yr int) c10Case {
 		cs.New[k] = v
 	}
 	// force-file-write placement
-	lv := core.Pick(r, []string{"unset", "root", "package", "interface", "interface", "package"})
+	lv := core.Pick(r, []string{"unset", "root", "package", "interface", "interface", "package", "env"})
+	var env map[string]string
 	cs.ForceLevel = lv
 	rootV := r.Chance(3, 4)
 	switch lv {
 	case "unset":
 		for _, f := range w.files {
 			cs.Force[f.path] = false
+		}
+	case "env":
+		// provided through the environment only
+		env = map[string]string{"MOCKERY_FORCE_FILE_WRITE": fmt.Sprint(rootV)}
+		for _, f := range w.files {
+			cs.Force[f.path] = rootV
 		}
 	case "root":
 		cfg.Set("force-file-write", rootV)
@@ -279,7 +286,7 @@ func (w *c10World) build(r *core.Rng, fault, policy string, yr int) c10Case {
 		}
 	}
 	cs.Tree = p.Tree()
-	cs.Step = world.Step{Plan: plan}
+	cs.Step = world.Step{Plan: plan, Env: env}
 	return cs
 }
 
@@ -552,7 +559,7 @@ func RunC10(c *core.Ctx) int {
 		"worlds":           nWorlds,
 		"stage_faults":     fk,
 		"initial_states":   []string{"absent", "old (generated by the same binary, other structname)", "user content", "directory with a file inside"},
-		"force_levels":     []string{"unset", "root", "package", "interface"},
+		"force_levels":     []string{"unset", "environment", "root", "package", "interface (uniform or mixed within a file)"},
 		"reference_runs":   2 * nWorlds,
 		"instrumented_sites": rep.RangeSites,
 		"components":       map[string]any{"real": []string{"mockery CLI (all packages)", "go list", "tmpfs"}, "instrumented": []string{fmt.Sprintf("%d map-range sites", len(rep.RangeSites)), "time.Now", "os.Getpid"}, "stub": []string{"HTTP origins (scripted RoundTripper)"}},
